@@ -84,15 +84,35 @@ func (p Point) PointCross(op Point) Point {
 	// but PointCross more accurately describes how this method is used.
 	x := p.Add(op.Vector).Cross(op.Sub(p.Vector))
 
-	// Compare exactly to the 0 vector.
-	if x == (r3.Vector{}) {
-		// The only result that makes sense mathematically is to return zero, but
-		// we find it more convenient to return an arbitrary orthogonal vector.
-		return Point{p.Ortho()}
+	// The absolute error of x is at most about (1 + 2*sqrt(3)) * dblError * 4 (for
+	// unit-length arguments), so its direction is accurate to pointCrossError only
+	// if it is not too short (this is kMinNorm of the C++ RobustCrossProd). Short
+	// results come from nearly identical and from nearly antipodal arguments; for
+	// the latter p + op is quantisation noise that is not even nearly orthogonal
+	// to op - p, and the direction of x can be off by thousands of ulps.
+	if x.Norm2() >= pointCrossMinNorm2 {
+		return Point{x}
 	}
 
-	return Point{x}
+	// Otherwise compute the cross product exactly. Only its direction matters to
+	// the callers, so the (normalized) conversion back to float64 is fine.
+	ex := r3.PreciseVectorFromVector(p.Vector).Cross(r3.PreciseVectorFromVector(op.Vector))
+	if !ex.IsZero() {
+		return Point{ex.Vector()}
+	}
+
+	// The only result that makes sense mathematically is to return zero, but
+	// we find it more convenient to return an arbitrary orthogonal vector.
+	return Point{p.Ortho()}
 }
+
+// pointCrossMinNorm2 is the square of
+//
+//	(32 * sqrt(3) * dblError) / (pointCrossError/dblError - (1 + 2*sqrt(3)))
+//
+// with pointCrossError = 6 * dblError, the length below which the float64
+// value of (p+op) x (op-p) cannot be trusted (see PointCross).
+const pointCrossMinNorm2 = 1.6052e-29
 
 // OrderedCCW returns true if the edges OA, OB, and OC are encountered in that
 // order while sweeping CCW around the point O.
